@@ -26,14 +26,14 @@ for m in MUTANTS:
         open(path, "w").write(src.replace(m["old"], m["new"], m["count"]))
         t = time.time()
         try:
-            p = subprocess.run([os.path.join(ROOT, "check"), m["prop"], "quick"], capture_output=True, text=True, cwd=ROOT, timeout=900)
+            p = subprocess.run([os.path.join(ROOT, "check"), m["prop"], "quick"], capture_output=True, text=True, cwd=ROOT, timeout=1800)
             out = p.stdout + p.stderr
             rc = p.returncode
         except subprocess.TimeoutExpired as te:
             out = (te.stdout or b"").decode(errors="replace") if isinstance(te.stdout, bytes) else (te.stdout or "")
             rc = 124
             subprocess.run("ps aux | grep 'release/vcheck' | grep -v grep | awk '{print $2}' | xargs -r kill -9", shell=True)
-        verdict = {0: "MISSED", 1: "caught", 124: "TIMEOUT(check did not finish in 900 s)"}.get(rc, f"infra({rc})")
+        verdict = {0: "MISSED", 1: "caught", 124: "TIMEOUT(check did not finish in 1800 s)"}.get(rc, f"infra({rc})")
         class P: pass
         p = P(); p.returncode = rc
         if p.returncode == 1:
